@@ -11,7 +11,7 @@ RULE = ('node trees of generated (G2) and real (G3) modules processed by a Proce
 	'node class whose parameters are exactly prop_keys() (so a missing/extra key surfaces as InvalidSchema); per visited node the event keys equal prop_keys() in order, list-annotated properties '
 	'receive lists and their elements are, in order, getattr(node, key); single properties receive getattr(node, key); the handler calls are exactly procedural() + [root] in that order and every property node is processed before its owner; '
 	'exec returns the root; (3) nested exec started from inside handlers of generated node kinds returns that subtree root and leaves the outer run intact; '
-	'non-trivial = a node with >= 2 list properties of different lengths or an empty optional child next to a non-empty sibling; distinct by source hash')
+	'(4) a handler that appends to every list it is handed (mode editing): no other event ever shows the edit; non-trivial = a node with >= 2 list properties of different lengths or an empty optional child next to a non-empty sibling; distinct by source hash')
 ASSUMPTIONS = [
 	'a module whose node properties raise an application error while being read (ill-formed for the node model) is outside the domain and counted as discarded',
 	'node equality is (module_path, full_path), as Node.__eq__ defines it',
@@ -50,7 +50,7 @@ _shared: dict = {}   # one long-lived Procedure per shard (mode 'reused'): conse
                      # revisions are equal by (module path, full path) although their trees differ — what an interactive session does
 
 
-def run(root, mode: str, nested_kinds: set[str], abort_at: int | None = None, reuse: bool = False) -> Recorder:
+def run(root, mode: str, nested_kinds: set[str], abort_at: int | None = None, reuse: bool = False, editing: bool = False) -> Recorder:
 	"""mode: 'fallback' | 'exact'. With abort_at a first run on the same Procedure is aborted by an exception raised in the handler of the
 	abort_at-th node (the caller catches it, as the interactive mode does); the judged run is the one after it."""
 	from rogw.tranp.errors import Errors
@@ -71,7 +71,13 @@ def run(root, mode: str, nested_kinds: set[str], abort_at: int | None = None, re
 			return node
 		if depth['n'] == 0:
 			rec.order.append(node)
-			rec.events[(node.module_path, node.full_path)] = (node, event)
+			rec.events[(node.module_path, node.full_path)] = (node, {k: list(v) if isinstance(v, list) else v for k, v in event.items()} if editing else event)
+			if editing:
+				# a handler that edits the lists it was handed for its own node (a chained plugin handler changing what the next one sees):
+				# the lists belong to this event alone, so no other node may ever see the edit
+				for v in event.values():
+					if isinstance(v, list):
+						v.append(node)
 		if depth['n'] == 0 and type(node).__name__ in nested_kinds and rec.nested_done < 6:
 			# nested processing of one of the node's own property subtrees, as Reflections.type_of / Py2Cpp.transpile(annotation) do
 			rec.nested_done += 1
@@ -205,13 +211,15 @@ def judge(app, source: str, nested_kinds: list[str], abort_at: int | None = None
 	root = app.nodes_for(entry)
 	info = {'nontrivial': False, 'nodes': 0}
 	fails: list[tuple[str, str]] = []
-	for mode in ('fallback', 'exact') + (('after-abort',) if abort_at else ()) + ('reused',):
+	for mode in ('fallback', 'exact') + (('after-abort',) if abort_at else ()) + ('reused', 'editing'):
 		try:
 			if mode == 'after-abort':
 				rec = run(root, 'fallback', set(), abort_at)
 				info['aborted'] = rec.aborted
 			elif mode == 'reused':
 				rec = run(root, 'fallback', set(), None, reuse=True)
+			elif mode == 'editing':
+				rec = run(root, 'fallback', set(), None, editing=True)
 			else:
 				rec = run(root, mode, set(nested_kinds) if mode == 'fallback' else set())
 			if not rec.fails:
